@@ -30,6 +30,10 @@ void use()
     }
     (void)uninit_local::bad();
     (void)uninit_local::good(true);
+    fwd_sink fs;
+    std::string keep("k");
+    fs.take_moved(keep);
+    fs.take_forwarded(keep);
     bad_cv f;
     f.set();
     f.wait();
